@@ -12,7 +12,7 @@
 From Coq Require Import ZArith QArith List Bool Arith Lia.
 Import ListNotations.
 From Inf Require Import model.PermM spec.PermS proofs.PermSpecP proofs.PermP proofs.PermQuickP
-  proofs.PermGlynnP proofs.PermIdleP proofs.PermTieP proofs.PermBoundAP proofs.PermBoundBP proofs.PermBoundCP.
+  proofs.PermGlynnP proofs.PermGlynn7P proofs.PermIdleP proofs.PermTieP proofs.PermBoundAP proofs.PermBoundBP proofs.PermBoundCP.
 Open Scope Q_scope.
 
 (* ================================================================== *)
@@ -232,11 +232,11 @@ Proof. cbv zeta. repeat split; vm_compute; discriminate || reflexivity. Qed.
 (* 4. Glynn's formula = permanent, bounded size, symbolic entries        *)
 
 (* the Gray-code loop of fast_glynn_perm returns the permanent of EVERY rational n x n matrix,
-   n <= 6 (proved on symbolic entries by field) *)
-Theorem C02_fast_glynn_eq_perm_le6_bounded : forall n M, (1 <= n <= 6)%nat -> square n M ->
+   n <= 7 (proved on symbolic entries by field) *)
+Theorem C02_fast_glynn_eq_perm_le7_bounded : forall n M, (1 <= n <= 7)%nat -> square n M ->
   exists p, fast_glynn_perm M = Some p /\ p == perm n (of_lists M).
-Proof. exact fast_glynn_eq_perm_le6. Qed.
-Print Assumptions C02_fast_glynn_eq_perm_le6_bounded.
+Proof. exact fast_glynn_eq_perm_le7. Qed.
+Print Assumptions C02_fast_glynn_eq_perm_le7_bounded.
 
 (* Glynn's formula as the plain sum over sign vectors, n <= 5 *)
 Theorem C02_glynn_plain_eq_perm_le5_bounded : forall n M, (n <= 5)%nat -> glynn_plain n M == perm n M.
